@@ -198,7 +198,7 @@ def _hop_queries(ctx, tag, h, ex, lt_ms, want_rhl, want_mhl, real_call, extra=()
 
 @vc("C20", "L7-origin-shb-beacon")
 def l7_shb(ctx):
-    for lt in ([None, 0.75] if ctx.tier == "quick" else E.LIFETIMES):
+    for lt in ([None, 0.0, 0.75] if ctx.tier == "quick" else E.LIFETIMES):
         h, req, conf, ex, lt_ms = E.case_shb(3, lt)
         _hop_queries(ctx, f"SHB[lt={lt}]", h, ex, lt_ms, 1, 1, lambda R, vals, req=req: R.gn_data_request_shb(G.concretize(req, vals)), (req,))
     h, ex, lt_ms = E.case_beacon()
@@ -212,7 +212,7 @@ def l7_gbc(ctx):
     if ctx.tier == "thorough":
         cases = [(HeaderType.GEOBROADCAST, x) for x in GeoBroadcastHST] + [(HeaderType.GEOANYCAST, x) for x in GeoAnycastHST]
     for ht, hst in cases:
-        for lt in ([None, 3.2] if ctx.tier == "quick" else E.LIFETIMES):
+        for lt in ([None, 0.0, 3.2] if ctx.tier == "quick" else E.LIFETIMES):
             h, req, conf, ex, lt_ms, info = E.case_gbc(ht, hst, 3, lt)
             meth = "gn_data_request_gbc" if ht == HeaderType.GEOBROADCAST else "gn_data_request_gac"
             _hop_queries(ctx, f"{hst.name}[lt={lt}]", h, ex, lt_ms, info["hop"], info["hop"],
@@ -222,7 +222,7 @@ def l7_gbc(ctx):
 
 @vc("C20", "L7-origin-guc-ls")
 def l7_guc(ctx):
-    for lt in ([None, 63.0] if ctx.tier == "quick" else E.LIFETIMES):
+    for lt in ([None, 0.0, 63.0] if ctx.tier == "quick" else E.LIFETIMES):
         h, req, conf, ex, lt_ms, info = E.case_guc(3, lt)
         _hop_queries(ctx, f"GUC[lt={lt}]", h, ex, lt_ms, info["hop"], info["hop"],
                      lambda R, vals, req=req: R.gn_data_request_guc(G.concretize(req, vals)), (req,))
